@@ -17,12 +17,19 @@ import vlib
 NS = 'xmlns="http://www.w3.org/2000/svg" xmlns:xlink="http://www.w3.org/1999/xlink"'
 SVGNS = 'http://www.w3.org/2000/svg'
 CONTAINERS = {'svg', 'g', 'defs', 'symbol', 'marker', 'mask', 'pattern', 'clipPath', 'a'}
-IMPORTS = ['Model.Base', 'Model.ConvBase', 'Gen.ConvTables', 'Model.Converter', 'Model.Corr']
+IMPORTS = ['Model.Base', 'Model.ConvBase', 'Gen.ConvTables', 'Model.Converter', 'Model.ConvCache', 'Model.Corr']
 
 
 # ------------------------------------------------------------------------------------------------
 # XML scanning: structural insertion points and start tags of the main document text
 # ------------------------------------------------------------------------------------------------
+# insertion points of the last scanned text that lie inside definition content: an inserted element that REFERENCES a definition of
+# the document is not placed there (it could close a reference cycle, which svgtree::parse fix_recursive_links breaks by removing
+# clip-path / mask / filter attributes of rendered content: a document error whoever carries the reference)
+DEF_CONTAINERS = {'defs', 'symbol', 'marker', 'mask', 'pattern', 'clipPath'}
+IN_DEFS = set()
+
+
 def scan(text):
     """-> (points, tags): points = offsets where a node may be inserted (all ancestors are container
     elements), tags = offsets just before the closing `>` / `/>` of start tags (attribute insertion)."""
@@ -31,6 +38,7 @@ def scan(text):
     stack = []
     i = 0
     n = len(text)
+    IN_DEFS.clear()
 
     def ok():
         return bool(stack) and all(s in CONTAINERS for s in stack)
@@ -108,6 +116,8 @@ def scan(text):
             i = k + 1
         if ok():
             points.append(i)
+            if any(x in DEF_CONTAINERS for x in stack):
+                IN_DEFS.add(i)
     return points, tags
 
 
@@ -250,11 +260,21 @@ class Junk:
                              # nothing may remain of it - in particular no generated filter id may be consumed
                              'filter="blur(2)"', 'filter="sepia()"', 'filter="drop-shadow(3 3 2 red)"', 'filter="grayscale(0.5) blur(1)"',
                              'filter="hue-rotate(90deg)" opacity="0.5"', 'style="filter:invert(1)"', 'filter="url(#vf_missing)"',
-                             'filter="url(#%s)"' % self.nid(), 'filter="blur(1) url(#vf_missing)"'])
+                             'filter="url(#%s)"' % self.nid(), 'filter="blur(1) url(#vf_missing)"',
+                             # dd154cd: a filter attribute without effect TOGETHER with a mask / clip-path link - to an inserted definition,
+                             # to a definition of the document (ref_ids; tl_om / tl_oc / mOK / cpOK exist in the generated documents):
+                             # the link must not be resolved (an objectBoundingBox mask would be registered, content converted early)
+                             'filter="none" mask="url(#%s)"' % self.nid(), 'filter="none" clip-path="url(#%s)"' % self.nid(),
+                             'filter="blur(2)" mask="url(#%s)"' % self.nid(), 'style="filter:none" mask="url(#%s)"' % self.nid(),
+                             'filter="none" mask="url(#%s)"' % r.choice(self.ref_ids), 'filter="none" clip-path="url(#%s)"' % r.choice(self.ref_ids),
+                             'filter="sepia()" mask="url(#%s)" clip-path="url(#%s)"' % (r.choice(self.ref_ids), r.choice(self.ref_ids)),
+                             'filter="url(#vf_missing)" mask="url(#%s)"' % r.choice(self.ref_ids),
+                             'filter="none" mask="url(#tl_om)"', 'filter="none" clip-path="url(#tl_oc)" mask="url(#tl_om)"',
+                             'filter="none" mask="url(#mOK)" clip-path="url(#cpOK)"'])
             # clip-path / mask that exist (inserted right behind the shape) as well as missing ones
             extra = ''
             m = re.search(r'(clip-path|mask|filter)="url\(#(vf_\d+)\)"', deco)
-            if m and r.below(2):
+            if m and (r.below(2) or 'filter="none"' in deco or 'filter:none' in deco):
                 extra = ('<clipPath id="%s"><rect width="9" height="9"/></clipPath>' % m.group(2) if m.group(1) == 'clip-path'
                          else '<mask id="%s"><rect width="9" height="9" fill="white"/></mask>' % m.group(2) if m.group(1) == 'mask'
                          else '<filter id="%s"><feFlood flood-color="red"/></filter>' % m.group(2))     # objectBoundingBox region: needs a bbox
@@ -318,7 +338,10 @@ def insert_junk(text, rng, kinds, lo=1, hi=8, elements_ok=True, langs=('en',)):
         if not elements_ok and kind not in ('comment', 'pi', 'ws'):
             continue
         for _ in range(lo + rng.below(hi - lo + 1)):
-            items.append((rng.choice(points), kind, jk.make(kind)))
+            pt, junk = rng.choice(points), jk.make(kind)
+            if pt in IN_DEFS:
+                junk = re.sub(r'="url\(#(?!vf_)[^)]*\)"', '="url(#vf_missing)"', junk)
+            items.append((pt, kind, junk))
     return apply_items(text, items), items
 
 
@@ -638,8 +661,9 @@ def run(ctx):
     quick = ctx.tier == 'quick'
     ctx.cov['trusted_base'] = vlib.BASE_TRUSTED + [
         "tools/gen_converter.py anchors (regular expressions over converter.rs, switch.rs, shapes.rs, svgtree/mod.rs, svgtree/parse.rs)",
-        "leaf converters (convert_path styling, image, text, use_node, clip/mask/filter resolution), roxmltree, simplecss: abstract in the model, "
-        "exercised by the correspondence and the insertion oracle only",
+        "leaf converters (convert_path styling, image, text, use_node, filter resolution, linked masks / clip paths), roxmltree, simplecss: abstract in "
+        "the model, exercised by the correspondence and the insertion oracle only; what mask::convert / clippath::convert do to the cache is modelled "
+        "(Model/ConvCache.v over mask_steps / clip_steps) and compared with the real ids by cache-reg",
     ]
     ctx.assumptions = ["documents with positional CSS selectors (:first-child, sibling combinators) receive comments, PIs, whitespace and attributes only: "
                        "an inserted ELEMENT legitimately changes positional matching",
@@ -648,6 +672,8 @@ def run(ctx):
                        "never inside text content or switch",
                        "a zero-size shape with a filter LINK to a filter with a userSpaceOnUse region is not inserted (a filter on an empty element can paint); "
                        "zero-size shapes with filter functions, objectBoundingBox filters or missing links are inserted and must leave nothing",
+                       "an inserted zero-size shape that links a clipPath / mask OF THE DOCUMENT is placed outside definition content (defs, symbol, marker, "
+                       "mask, pattern, clipPath): inside it could close a reference cycle, which fix_recursive_links breaks by editing rendered content",
                        "has_valid_transform's determinant test is computed in f64 in the source and idealised as exact in the model"]
     broken = ctx.translate()
     res = ctx.coq_props(extra_targets=['Model/Corr.v'])
@@ -804,6 +830,94 @@ def run(ctx):
                               dict(doc=gdocs[bi][1], result=gouts[bi][:300]))
             ctx.cov['gen_id_cases'] = len(gitems)
 
+    # ------------------------------------------------------------------ K4 cache-reg (extension round 4)
+    # the ids that clip-path / mask links resolve to (element id, cached definition, generated maskN / clipPathN) for sequences of
+    # valid and zero-size shapes with / without a filter attribute: real tree == Model/ConvCache.v (mask_convert / clip_convert over
+    # mask_steps / clip_steps) plugged into the converter skeleton.  Groups contain shapes only, so "has children" == "has a bbox".
+    DEFS_C = ('<mask id="mO"><rect width="500" height="500" fill="white"/></mask>'
+              '<mask id="mU" maskUnits="userSpaceOnUse" x="0" y="0" width="500" height="500"><rect width="500" height="500" fill="white"/></mask>'
+              '<mask id="mC" maskContentUnits="objectBoundingBox"><rect width="1" height="1" fill="white"/></mask>'
+              '<clipPath id="cO" clipPathUnits="objectBoundingBox"><rect width="1" height="1"/></clipPath>'
+              '<clipPath id="cU"><rect width="500" height="500"/></clipPath>'
+              '<filter id="fOK" filterUnits="userSpaceOnUse" x="0" y="0" width="300" height="300"><feFlood flood-color="green" flood-opacity="0.5"/></filter>'
+              '<linearGradient id="lgX"><stop offset="0" stop-color="red"/></linearGradient>')
+
+    def reg_shape():
+        a = sk.elem(3)
+        a.update(clip=rng.choice([None] * 3 + ['cO', 'cO', 'cU', 'lgX', 'missing']), mask=rng.choice([None] * 2 + ['mO', 'mO', 'mU', 'mC', 'lgX']),
+                 filter=rng.choice([None] * 3 + ['none', 'none', 'fOK', 'missing']), valid=rng.below(5) < 3,
+                 ts=rng.choice(['', '', '', 'translate(3 4)', 'scale(0)']), cond=rng.choice([None] * 6 + ['ext']))
+        return a
+    rdocs = []
+    for _ in range(120 if quick else 800):
+        sk.n = 0
+        kids = []
+        for _ in range(2 + rng.below(5)):
+            a = reg_shape()
+            if rng.below(4) == 0:
+                a['tag'] = 'g'
+                a['children'] = [reg_shape() for _ in range(rng.below(4))]
+                for ch in a['children']:
+                    # an element without content that is kept for its filter has no object bounding box: not inside a group
+                    # (the instance's bbox rule is "has children")
+                    if ch['filter'] == 'fOK':
+                        ch['filter'] = rng.choice([None, 'none', 'missing'])
+            kids.append(a)
+        rdocs.append((kids, '<svg %s width="200" height="200">%s%s</svg>' % (NS, DEFS_C, ''.join(skel_xml(k) for k in kids))))
+    # fixed patterns: a definition that is already registered meets an element WITHOUT a bounding box (empty group, zero-size shape
+    # with an ineffective filter), then further users show the generated ids
+    def fixed(tag, valid, clip, mask, flt):
+        a = reg_shape()
+        a.update(tag=tag, valid=valid, clip=clip, mask=mask, filter=flt, ts='', cond=None, display_none=False, opacity=None, blend=False, isolate=False,
+                 children=[])
+        return a
+    for clip, mask in (('cO', None), (None, 'mO'), ('cO', 'mC'), ('cU', 'mU'), ('cO', 'mO')):
+        for mid in (fixed('g', True, clip, mask, None), fixed('g', True, clip, mask, 'none'), fixed('rect', False, clip, mask, 'none'),
+                    fixed('circle', False, clip, mask, 'missing'), fixed('path', False, clip, mask, 'fOK')):
+            sk.n = 0
+            kids = [fixed('rect', True, clip, mask, None), mid, fixed('ellipse', True, clip, mask, None), fixed('polygon', True, clip, mask, 'none')]
+            for i, k in enumerate(kids):
+                k['id'] = 'f%d' % i
+            rdocs.append((kids, '<svg %s width="200" height="200">%s%s</svg>' % (NS, DEFS_C, ''.join(skel_xml(k) for k in kids))))
+    routs = ctx.rvh_batch(binp, 'dump', ["-\t" + x for _, x in rdocs])
+    ritems, rmap = [], []
+    for i, ((kids, xml), o) in enumerate(zip(rdocs, routs)):
+        try:
+            tree = json.loads(o)
+        except (TypeError, ValueError):
+            tree = {'error': 'unparsable'}
+        if 'root' not in tree:
+            ctx.violation("cache-reg: generated document failed to parse or crashed: %s" % str(tree)[:200], dict(doc=xml, result=tree))
+            continue
+        nodes = 'NNil'
+        for k in reversed(kids):
+            nodes = '(NCons %s %s)' % (skel_coq(k), nodes)
+        ritems.append("(%s, %s)" % (nodes, '[%s]' % '; '.join(dump_coq(c) for c in tree['root']['children'])))
+        rmap.append(i)
+        gen = len(re.findall(r'"id": ?"(?:mask|clipPath)\d+"', o or ''))
+        ctx.note_case("cachereg/" + xml, nontrivial=gen > 0)
+    if ritems:
+        body = ("From Coq Require Import String.\nLocal Open Scope Q_scope.\nLocal Open Scope string_scope.\n"
+                "Definition st0 : sim_state := {| ss_in_clip := false; ss_valid_links := [\"fOK\"] |}.\n"
+                "Definition clips : defs_t := [(\"cO\", clip_obb \"cO\"); (\"cU\", clip_usou \"cU\"); (\"lgX\", not_a_def \"lgX\")].\n"
+                "Definition masks : defs_t := [(\"mO\", mask_obb \"mO\"); (\"mU\", mask_usou \"mU\"); (\"mC\", mask_cobb \"mC\"); (\"lgX\", not_a_def \"lgX\")].\n"
+                "Definition cases : list (nodes * list onode) := [\n%s\n].\n"
+                "Eval vm_compute in (bad_indices (fun p => let r := simc_children fmt9 clips masks (fst p) false false st0 empty_cache root_group in "
+                "onodes_eqb (og_ch (snd r)) (snd p)) cases).\n" % ";\n".join(ritems))
+        rc, out = ctx.coq_eval('k_cachereg', body, IMPORTS)
+        badl = ctx.parse_N_list(out) if rc == 0 else None
+        if badl is None:
+            ctx.log("cache-reg model evaluation failed:\n" + out[-1500:])
+            ctx.violation("cache-reg: the model no longer evaluates (Model/ConvCache.v against Gen/ConvTables.v)", dict(log=out[-1500:]), found_input=False)
+        else:
+            ctx.cov['cache_reg_cases'] = len(ritems)
+            for bi in badl[:3]:
+                i = rmap[bi]
+                ctx.violation("cache-reg: clip-path / mask ids of the converted tree differ from the cache model (mask_steps / clip_steps / group_steps)",
+                              dict(doc=rdocs[i][1], real_children=json.loads(routs[i])['root']['children'] if routs[i] else None,
+                                   replay="rvh dump <<< '0\\t-\\t<doc>' and compare with simc_children fmt9 clips masks"))
+    ctx.add_sample(dict(op='cache-reg', doc=rdocs[0][1][:700]))
+
     # ------------------------------------------------------------------ S e2e-C11
     cases = []
     kinds_hist = {}
@@ -836,6 +950,21 @@ def run(ctx):
         if m:
             base = wt[:m.start()] + wt[m.end():]
             cases.append(dict(name=wpath, opts='-', a=hexdoc(base), b_text=wt, items=[(m.start(), 'singular', m.group(0))], base_text=base))
+    # dd154cd: zero-size shapes with a filter attribute and a mask / clip-path link (witness = document WITH the shapes)
+    for wname in ('C11-zero-shape-filter-none-mask.svg', 'C11-zero-shape-filter-blur-mask.svg', 'C11-zero-shape-filter-none-clip.svg',
+                  'C11-zero-shapes-shared-mask.svg'):
+        wpath = os.path.join(vlib.VERIF, 'corpus', 'witness', wname)
+        if not os.path.exists(wpath):
+            ctx.violation("regression witness %s is missing" % wname, dict(path=wpath), found_input=False)
+            continue
+        wt = open(wpath).read().strip()
+        its = [(m.start(), 'zero', m.group(0)) for m in re.finditer(r'<(?:rect|circle|mask) id="vf_[^>]*?(?:/>|>.*?</mask>)', wt)]
+        base = wt
+        for o, _, t in sorted(its, key=lambda x: -x[0]):
+            base = base[:o] + base[o + len(t):]
+        # offsets in the base text: every junk element is inserted at the position of the first one
+        o0 = min(o for o, _, _ in its) if its else 0
+        cases.append(dict(name=wpath, opts='-', a=hexdoc(base), b_text=wt, items=[(o0, k, t) for _, k, t in reversed(its)], base_text=base))
     bad = check_pairs(ctx, binp, 'e2e', cases)
     ctx.cov['e2e_cases'] = len(cases)
     ctx.cov['e2e_insertions_by_kind'] = kinds_hist
@@ -885,7 +1014,9 @@ def run(ctx):
                        "display/opacity/d/width/... with an effective value, display:none subtree, unreferenced definition of 9 sorts, failing conditional attribute, zero-size "
                        "shape with group-forming attributes, non-invertible transform) at random structural positions; convert-skel: random element "
                        "trees (7 shapes, g, switch, defs-like) x random attributes (display, transform, opacity, blend, isolation, clip/mask/filter "
-                       "valid/invalid/missing, conditional attributes, valid/invalid geometry).  Non-trivial: the rendering of the original is not blank; "
+                       "valid/invalid/missing, conditional attributes, valid/invalid geometry); cache-reg: 120/800 sequences of valid / zero-size shapes and groups x filter "
+                       "absent/none/resolvable/missing x objectBoundingBox / userSpaceOnUse / content-objectBoundingBox masks x objectBoundingBox / userSpaceOnUse clip "
+                       "paths, resolved ids (element id, cached, generated maskN / clipPathN) == Model/ConvCache.v, compared inside Coq.  Non-trivial: the rendering of the original is not blank; "
                        "distinct by file/document and insertion count.")
 
 
